@@ -385,14 +385,22 @@ def minmax_cases(chk, drv):
         root = rng.randrange(int(np.prod(P)))
         as_list = rng.random() < 0.5
         as_array = rng.random() < 0.4
+        # every fifth grid has a history: saved, moved to another layout (where the axes sit at other positions) and restored; the
+        # extrema asked for afterwards are those of the restored field in the restored layout
+        hist = it % 5 == 2
+        other = [n for n in sorted(lays) if n != name][it // 5 % (len(lays) - 1)]
 
         def body():
             comm = MPI.COMM_WORLD
             h = getLayoutHandler(comm, lays, list(P), eta)
             coords = [int(x) for x in h.mpiCoords] + [0] * (nd - 2)
-            g = Grid(eta, [None] * nd, h, name, comm, dtype=(np.complex128 if cplx else float))
+            g = Grid(eta, [None] * nd, h, name, comm, dtype=(np.complex128 if cplx else float), allocateSaveMemory=hist)
             L = g.getLayout(name)
             g.getAllData()[:] = lu.expected_block(G, L)
+            if hist:
+                g.saveGridValues()
+                g.setLayout(other)
+                g.restoreGridValues()
             if not sel:
                 a = (root,)
             elif len(sel) == 1 and not as_list:
@@ -417,7 +425,8 @@ def minmax_cases(chk, drv):
                     'lmin': lmn, 'lmax': lmx, 'coords': coords, 'rank': comm.Get_rank(), 'size': int(g.getAllData().size)}
         res = lu.run_ranks(int(np.prod(P)), body, policy=rng.choice(['inorder', 'reverse', 'random']), seed=it,
                            reduce_order=rng.choice(['rank', 'reverse', 'random']))
-        case = {'P': list(P), 'npts': npts, 'layout': name, 'sel': sel, 'root': root, 'complex': cplx}
+        case = {'P': list(P), 'npts': npts, 'layout': name, 'sel': sel, 'root': root, 'complex': cplx,
+                'history': ['saveGridValues', 'setLayout(%s)' % other, 'restoreGridValues'] if hist else []}
         if not res.ok:
             chk.fail('C17:minmax-crash', 'getMin/getMax raised: ' + str(res.first_error())[:200], case)
             continue
@@ -501,6 +510,7 @@ def collector_cases(chk, drv):
         n_reduce = rng.choice([1, 1, 2, 3])          # reduce() more than once over the same window (live monitoring, then the final one)
         if it % 4 in (0, 1):
             n_reduce = 3 - it % 4
+        renumbered = it % 3 == 2 and P[0] * P[1] > 1
 
         def body():
             comm = MPI.COMM_WORLD
@@ -508,7 +518,12 @@ def collector_cases(chk, drv):
             f = Grid(eta, [None] * 4, h, 'v_parallel', comm)
             sw = LayoutSwapper(comm, [layout_poisson, layout_vpar, layout_poloidal], [list(P), P[0], P[1]], eta[:3], 'mode_solve')
             phi = Grid(eta[:3], [None] * 3, sw, 'v_parallel_2d', comm, dtype=np.complex128)
-            dc = DiagnosticCollector(comm, saveStep, dt, f, phi)
+            ccomm = comm
+            if renumbered:
+                # the diagnostics are collected on a communicator with the same members in another numbering (a Split of the world, as
+                # the set-up with a plot-only process makes one): root 0 of THAT communicator holds the results
+                ccomm = comm.Split(0, comm.Get_size() - comm.Get_rank())
+            dc = DiagnosticCollector(ccomm, saveStep, dt, f, phi)
             for k, F, Ph in zip(steps, Fs, Phis):
                 f.getAllData()[:] = lu.expected_block(F, f.getLayout('v_parallel'))
                 phi.getAllData()[:] = lu.expected_block(Ph, phi.getLayout('v_parallel_2d'))
@@ -516,12 +531,12 @@ def collector_cases(chk, drv):
             times = dc.diagnostics[0, :].copy()
             for _ in range(n_reduce):
                 dc.reduce()
-            return {'rank': comm.Get_rank(), 'times': times.tolist(),
+            return {'rank': ccomm.Get_rank(), 'times': times.tolist(),
                     'rows': [np.array(x, dtype=float).tolist() for x in (dc.l2PhiResult, dc.l2GridResult, dc.l1Result, dc.nPartResult,
                                                                          dc.min_val, dc.max_val, dc.KE_val)]}
         res = lu.run_ranks(int(np.prod(P)), body, policy=rng.choice(['inorder', 'reverse', 'random']), seed=it, reduce_order=order)
         case = {'P': list(P), 'npts': npts, 'saveStep': saveStep, 'dt': dt, 'steps': steps, 'time_offset': off, 'reduce_order': order,
-                'reduce_calls': n_reduce}
+                'reduce_calls': n_reduce, 'collector_communicator': 'the world renumbered in reverse' if renumbered else 'the world'}
         if not res.ok:
             chk.fail('C17:collector-crash', 'DiagnosticCollector raised: ' + str(res.first_error())[:200], case)
             continue
